@@ -8,6 +8,7 @@ CONSTANTS
   FirstWriteKeeps = FALSE
   HookEditsOld = FALSE
   LendsOld = TRUE
+  MergeFiltersSrc = FALSE
   InitKinds = {"absent", "present"}
   NCases = 0
   MinOps = 1
